@@ -227,3 +227,71 @@ pub fn sleepy(tasks: usize, naps: usize) -> u64 {
     });
     total.load(Ordering::SeqCst)
 }
+
+/// A guided-scheduling block queue as a maintainer might write it: a block of cells is claimed
+/// with a compare-exchange, its output slot is drawn by a separate `fetch_add`. Two workers
+/// between the two swap their slots. Workers are spawned in a `scope`, each with a first block in
+/// hand, and do a lot of work per block (`cell_work` rounds per cell), so the window is a few
+/// instructions in millions. Returns true iff the slots came out in block order.
+pub fn block_queue(cells: usize, min_block: usize, cell_work: u32) -> bool {
+    struct Q {
+        len: usize,
+        workers: usize,
+        min_block: usize,
+        next_cell: AtomicUsize,
+        next_slot: AtomicUsize,
+    }
+    impl Q {
+        fn next_block(&self) -> Option<(usize, usize, usize)> {
+            let mut offset = self.next_cell.load(Ordering::Relaxed);
+            let count = loop {
+                if offset >= self.len {
+                    return None;
+                }
+                let remaining = self.len - offset;
+                let count = (remaining / (2 * self.workers)).clamp(self.min_block, 1024).min(remaining);
+                match self.next_cell.compare_exchange_weak(offset, offset + count, Ordering::Relaxed, Ordering::Relaxed) {
+                    Ok(_) => break count,
+                    Err(cur) => offset = cur,
+                }
+            };
+            let slot = self.next_slot.fetch_add(1, Ordering::Relaxed);
+            Some((offset, count, slot))
+        }
+    }
+    let workers = rayon::current_num_threads();
+    let q = Q {
+        len: cells,
+        workers: workers.max(1),
+        min_block,
+        next_cell: AtomicUsize::new(0),
+        next_slot: AtomicUsize::new(0),
+    };
+    let out: Mutex<Vec<(usize, u64)>> = Mutex::new(vec![]);
+    let construct = |(offset, count, slot): (usize, usize, usize)| {
+        let mut acc = 0u64;
+        for c in offset..offset + count {
+            acc = acc.wrapping_add(work(c as u64, cell_work));
+        }
+        let mut g = out.lock().unwrap();
+        if g.len() <= slot {
+            g.resize(slot + 1, (usize::MAX, 0));
+        }
+        g[slot] = (offset, acc);
+    };
+    let worker = |first: (usize, usize, usize)| {
+        construct(first);
+        while let Some(b) = q.next_block() {
+            construct(b);
+        }
+    };
+    rayon::scope(|s| {
+        let worker = &worker;
+        for _ in 0..workers {
+            let Some(b) = q.next_block() else { break };
+            s.spawn(move |_| worker(b));
+        }
+    });
+    let g = out.into_inner().unwrap();
+    g.windows(2).all(|w| w[0].0 < w[1].0)
+}
